@@ -277,3 +277,12 @@ DTYPE_RANGE = {
     "u16": (0, 65535),
     "i16": (-32768, 32767),
 }
+
+
+class RaiseV:
+    """the evaluation raised an exception (produced by environment handlers)"""
+
+    __slots__ = ("name",)
+
+    def __init__(self, name):
+        self.name = name
